@@ -41,6 +41,7 @@ type c16Cmd struct {
 	Mal   int             `json:"mal,omitempty"`
 	Ty    string          `json:"ty,omitempty"`    // "sent": types in the packet, "reused": new-params-bound = 0
 	Fault bool            `json:"fault,omitempty"` // the statement fails at the backend
+	Hdr   string          `json:"hdr,omitempty"`   // "special": header fields a server may refuse (cursor flags, iteration count)
 	Res   string          `json:"res"`
 	Used  json.RawMessage `json:"used,omitempty"`
 }
@@ -266,6 +267,19 @@ func TestVerifStmtLifecycle(t *testing.T) {
 				binary.LittleEndian.PutUint32(data[0:4], idOf(cmd.H))
 				data[4] = 0
 				binary.LittleEndian.PutUint32(data[5:9], 1)
+				if cmd.Hdr == "special" {
+					// a well-formed packet asking for something the server may not support
+					switch in.rng.Intn(6) {
+					case 0, 1, 2:
+						data[4] = 1 // CURSOR_TYPE_READ_ONLY
+					case 3:
+						data[4] = 5 // CURSOR_TYPE_READ_ONLY | CURSOR_TYPE_SCROLLABLE
+					case 4:
+						data[4] = 2 // CURSOR_TYPE_FOR_UPDATE
+					default:
+						binary.LittleEndian.PutUint32(data[5:9], 2) // iteration count 2
+					}
+				}
 				nullmap := make([]byte, (c.NP+7)/8)
 				types := make([]byte, 0, 2*c.NP)
 				var values []byte
@@ -315,7 +329,7 @@ func TestVerifStmtLifecycle(t *testing.T) {
 				}
 				// ---- expected statement
 				want := ""
-				if cmd.Res == "ok" || cmd.Res == "backend-error" {
+				if cmd.Res == "ok" || cmd.Res == "backend-error" || cmd.Res == "may-refuse" {
 					var used []c16Used
 					if err := json.Unmarshal(cmd.Used, &used); err != nil {
 						return fmt.Errorf("case %d command %d: used: %v", ci, n, err)
@@ -370,6 +384,20 @@ func TestVerifStmtLifecycle(t *testing.T) {
 						res.Dev(fmt.Sprintf("%s: truncated packet (%s) executed", where, kind), "command %d: packet truncated at %d was executed: %q", n, cmd.Mal, st.SQL)
 					}
 					lastClear[cmd.H] = "exec-malformed(" + kind + ")"
+				case "may-refuse":
+					// the server may refuse the header (then nothing reaches the backend) or execute the statement
+					// (then with exactly the specified values); either way the statement is cleared afterwards
+					switch {
+					case failed && len(st.SQL) > 0:
+						res.Dev(where+": refused execute reached the backend", "command %d: reply %s but the backend received %q", n, st.Err, st.SQL)
+					case !failed && (len(st.SQL) != 1 || st.SQL[0] != want):
+						res.Dev(where+": wrong values (execute with cursor flags / iteration count)", "command %d: executed %q, the specification requires %q", n, st.SQL, want)
+					}
+					if failed {
+						lastClear[cmd.H] = "exec-refused-header"
+					} else {
+						lastClear[cmd.H] = "exec-ok"
+					}
 				case "ok", "backend-error":
 					if cmd.Ty != "reused" {
 						lastTypes[cmd.H] = types
@@ -414,6 +442,11 @@ func TestVerifStmtLifecycle(t *testing.T) {
 						lastClear[cmd.H] = "exec-backend-error"
 					}
 				}
+			}
+			if fix.panicked != "" {
+				res.Dev(fmt.Sprintf("C16 %s after %s: the session panicked", cmd.C, shape), "command %d: %s", n, fix.panicked)
+				fix.panicked = ""
+				stop = true
 			}
 			steps = append(steps, st)
 		}
